@@ -1,9 +1,10 @@
 (* C03 — anti-aliased fill alpha approximates exact area coverage (accumulator arithmetic).
    The run-length refinement  dense (add s ..) = dense_add (dense s) ..  is checked on every correspondence
-   case by comparing the model's own dense view with the per-pixel specification (Model/RunC03.v); it is
-   NOT a theorem yet (see DESIGN.md, C03 partial). *)
+   case by comparing the model's own dense view with the per-pixel specification (Model/RunC03.v) and is a
+   theorem below (C03_add_refines_dense and its lifts to a scanline and a destination row). *)
 From Coq Require Import ZArith List.
-From TS Require Import Model.AlphaRuns Proofs.AlphaProofs Proofs.AlphaRefine.
+From TS Require Import Model.AlphaRuns Proofs.AlphaProofs Proofs.AlphaRefine Proofs.AlphaRefine2.
+Import ListNotations.
 Local Open Scope Z_scope.
 
 (* every supersampled span is split into (partial start pixel, n full pixels, partial stop pixel) without
@@ -44,3 +45,35 @@ Theorem C03_break_run_preserves_dense :
   exists s' segs', break_run s base x count = Some s' /\ WFruns s' (pre ++ segs') /\ dense s' = dense s /\
                    boundary segs' x /\ boundary segs' (x + count).
 Proof. exact break_run_preserves_dense. Qed.
+
+(* AlphaRuns::add is the per-pixel update on the dense view.  For a well-formed structure whose runs [pre] end at the
+   offset the caller passes (a run boundary), a span starting at or after that offset and fitting in the row:
+   - add panics (model: None) exactly when the per-pixel specification overflows;
+   - otherwise the structure stays well-formed, its per-pixel view is dense_add of the old one, the offset it
+     returns is again a run boundary that is not before the caller's prefix and not after the stop pixel. *)
+Theorem C03_add_refines_dense :
+  forall s pre rest x sa mid ea maxv,
+  WFruns s (pre ++ rest) -> total pre <= x -> 0 <= mid -> (x - total pre) + flag sa + mid + flag ea <= total rest ->
+  match ar_add s x sa mid ea maxv (total pre) with
+  | Some (s', off') => exists pre' rest', WFruns s' (pre' ++ rest') /\ total pre' = off' /\ (exists l, pre' = pre ++ l) /\
+                        dense_add (flat (pre ++ rest)) x sa mid ea maxv = Some (flat (pre' ++ rest')) /\ off' <= x + flag sa + mid
+  | None => dense_add (flat (pre ++ rest)) x sa mid ea maxv = None
+  end.
+Proof. exact add_refines_dense. Qed.
+
+(* a whole destination row: SuperBlitter restarts offset_x at 0 on every sub-scanline and feeds the spans of a
+   sub-scanline left to right (calls_ok); on a fresh row of any width the run-length accumulator then holds exactly
+   the per-pixel sums, and it panics exactly when they overflow *)
+Theorem C03_row_refines_dense :
+  forall width rows, 0 < width -> Forall (calls_ok 0 width) rows ->
+  match run_subrows (ar_new width) rows with
+  | Some s' => exists d', dense s' = Some d' /\ dense_subrows (repeat 0 (Z.to_nat width)) rows = Some d'
+  | None => dense_subrows (repeat 0 (Z.to_nat width)) rows = None
+  end.
+Proof. exact row_refines_dense. Qed.
+
+(* reset(width) re-creates the fresh row from any contents *)
+Theorem C03_reset_fresh :
+  forall s width, 0 < width <= 65535 -> width < Z.of_nat (length (ar_runs s)) -> length (ar_alpha s) = length (ar_runs s) ->
+  exists s', ar_reset s width = Some s' /\ WFruns s' ([] ++ [(width, 0)]).
+Proof. exact reset_wf. Qed.
